@@ -49,6 +49,39 @@ func (i *interpreter) callIntrinsic(fr *frame, fn *ssa.Function, args []value) (
 	if fn.Name() == "init" && fn.Synthetic != "" {
 		return nil, true
 	}
+	if opt, ok := genericRegoOption(fn); ok {
+		i.intrSeen["stub:"+name] = true
+		return opt, true
+	}
+	if opaquePkg(fn) {
+		// other functions of the policy engine (compilers, capabilities, print hooks …): their results are
+		// opaque values that repository code can only hand on to an option constructor
+		i.intrSeen["opaque:"+name] = true
+		res := fn.Signature.Results()
+		mk := func(t types.Type) value {
+			switch t.Underlying().(type) {
+			case *types.Pointer:
+				var cell value = nativeObj{"opaque " + name}
+				return &cell
+			case *types.Interface:
+				return iface{t: types.Typ[types.String], v: "opaque " + name}
+			case *types.Signature:
+				return mkRegoOpt(regoOpt{kind: "other:" + fn.Name()})
+			}
+			return zero(t)
+		}
+		switch res.Len() {
+		case 0:
+			return nil, true
+		case 1:
+			return mk(res.At(0).Type()), true
+		}
+		var tup tuple
+		for k := 0; k < res.Len(); k++ {
+			tup = append(tup, mk(res.At(k).Type()))
+		}
+		return tup, true
+	}
 	pkg := fn.Pkg
 	if pkg == nil && fn.Origin() != nil {
 		pkg = fn.Origin().Pkg
@@ -609,6 +642,9 @@ func (i *interpreter) nativeErr(err error) value {
 // ---- fmt ----
 
 func (i *interpreter) format(fr *frame, f value, args []value) value {
+	if sf, ok := f.(sstr); ok {
+		return i.formatSymbolic(fr, sf, args)
+	}
 	format := mustStr(f, "format string")
 	var parts []value
 	argi := 0
@@ -732,3 +768,63 @@ func (i *interpreter) formatOne(fr *frame, verb byte, arg value) value {
 }
 
 var _ = sort.Strings
+
+func opaquePkg(fn *ssa.Function) bool {
+	p := fn.Pkg
+	if p == nil && fn.Origin() != nil {
+		p = fn.Origin().Pkg
+	}
+	if p == nil {
+		if recv := fn.Signature.Recv(); recv != nil {
+			t := recv.Type()
+			if pt, ok := t.(*types.Pointer); ok {
+				t = pt.Elem()
+			}
+			if n, ok := t.(*types.Named); ok && n.Obj().Pkg() != nil {
+				return strings.HasPrefix(n.Obj().Pkg().Path(), "github.com/open-policy-agent/opa/")
+			}
+		}
+		return false
+	}
+	return strings.HasPrefix(p.Pkg.Path(), "github.com/open-policy-agent/opa/")
+}
+
+// formatSymbolic is Sprintf for a format string with symbolic bytes (a text that was never
+// meant to be a format): bytes other than '%' are copied; "%%" gives "%"; '%' followed by an
+// ordinary letter consumes an operand (or prints %!x(MISSING)); a trailing '%' prints %!(NOVERB).
+// Flags, widths and indexes after '%' are outside the model.
+func (i *interpreter) formatSymbolic(fr *frame, f sstr, args []value) value {
+	ps := i.ps
+	var parts []value
+	argi := 0
+	for k := 0; k < len(f.b); k++ {
+		b := f.b[k]
+		if !ps.decide(smt.Eq(b, smt.BV('%', 8))) {
+			parts = append(parts, normStr(ps, []*smt.Term{b}))
+			continue
+		}
+		if k+1 >= len(f.b) {
+			parts = append(parts, "%!(NOVERB)")
+			break
+		}
+		vb := f.b[k+1]
+		k++
+		if ps.decide(smt.Eq(vb, smt.BV('%', 8))) {
+			parts = append(parts, "%")
+			continue
+		}
+		isLetter := smt.Or(smt.And(smt.BvCmp(smt.OpBvUle, smt.BV('a', 8), vb), smt.BvCmp(smt.OpBvUle, vb, smt.BV('z', 8))),
+			smt.And(smt.BvCmp(smt.OpBvUle, smt.BV('A', 8), vb), smt.BvCmp(smt.OpBvUle, vb, smt.BV('Z', 8))))
+		if !ps.decide(isLetter) {
+			panic(pathEnd{"assume-false", "format flags/width after a symbolic '%' (outside the model)"})
+		}
+		if argi < len(args) {
+			panic(unsupported{"symbolic format verb with an operand"})
+		}
+		parts = append(parts, "%!", normStr(ps, []*smt.Term{vb}), "(MISSING)")
+	}
+	if argi < len(args) {
+		parts = append(parts, "%!(EXTRA ...)")
+	}
+	return concatStr(ps, parts)
+}
